@@ -650,7 +650,11 @@ func (w *WAL) DeleteRange(min uint64, max uint64) error {
 	//   |first====last|
 	case min <= first: // max >= first implied by the first case not matching
 		// Note we allow head truncations where max > last which effectively removes
-		// the entire log.
+		// the entire log. Nothing beyond last exists, so don't let max + 1 wrap
+		// around to 0 when the caller passes math.MaxUint64 for "everything".
+		if max > last {
+			max = last
+		}
 		return w.truncateHeadLocked(max + 1)
 
 	//    |min----max|
